@@ -102,7 +102,7 @@ def run(ctx, model_ok):
     rng = ctx.rng
     pool = supported()
     n = 90 if ctx.tier == "quick" else 900
-    cases = [dict(rp) for rp in getattr(ctx, "known_replays", [])]
+    cases = [dict(rp, export=rp.get("export", True)) for rp in getattr(ctx, "known_replays", []) + getattr(ctx, "fixed_replays", []) if "tracers" in rp]
     # every supported event alone at least once (so a defect confined to one event's site cannot hide behind the others)
     for e in pool:
         if len(cases) < n // 2 or ctx.tier != "quick":
